@@ -1204,8 +1204,27 @@ impl<'r> Gen<'r> {
 
     // ------------------------------------------------------------------------------------ functions / program
 
+    /// 0-2 top-level constants. Their names are taken from the pool of parameter / local names, so
+    /// that parameters and locals regularly shadow a constant (and callees that use the constant are
+    /// called from scopes in which it is shadowed).
+    fn gen_consts(&mut self) {
+        if !self.rng.chance(1, 3) {
+            return;
+        }
+        let n = 1 + self.rng.usize_below(2);
+        let mut names = vec!["p1", "p2", "p3", "v3", "v4", "v5", "m4", "m5", "m6", "u0", "K"];
+        self.rng.shuffle(&mut names);
+        for name in names.into_iter().take(n) {
+            let ty = self.gen_prim_ty();
+            let val = super::ty::gen_val(self.rng, &ty, &self.defs);
+            self.defs.consts.push((name.to_string(), ty, val));
+        }
+    }
+
     fn gen_fn(&mut self, name: String, is_pub: bool) -> FnDef {
         let saved = std::mem::take(&mut self.scopes);
+        // outermost scope of every function: the constants
+        self.scopes.push(self.defs.consts.iter().map(|(n, t, _)| Var { name: n.clone(), ty: t.clone(), mutable: false }).collect());
         // names are numbered per function in most programs, so that parameters and locals of a
         // callee collide with the names of its callers' variables (scoping bugs only show then)
         if self.rng.chance(3, 4) {
@@ -1333,6 +1352,7 @@ impl<'r> Gen<'r> {
 
     pub fn gen_program(mut self) -> (Program, std::collections::BTreeSet<&'static str>) {
         self.gen_defs();
+        self.gen_consts();
         let nf = self.rng.usize_below(self.cfg.max_fns + 1);
         for i in 0..nf {
             // helper functions get a fraction of the budget (they are inlined at every call site)
